@@ -288,6 +288,11 @@ def main():
                 return __setattr__
             ns["__setattr__"] = mk_hook(marked_names)
         ns["__annotations__"] = dict({"peer": Shared}, **inj_ann)
+        if any(c2.get("same_as") == i for c2 in case["comps"]) and (ncomp + nattr) % 2 == 0:
+            # two components of one class that COMPARE EQUAL (a dataclass-like component with value semantics): they are two
+            # components all the same, each with its own setup() and lifecycle
+            ns["__eq__"] = lambda self, other: type(other) is type(self)
+            ns["__hash__"] = lambda self: 7
         ns["gain"] = tunable(i)
         if spec["has_setup"]:
             def mk_setup(i):
